@@ -90,6 +90,8 @@ def classify(pid, results, baseline, known):
             seen_funcs.add(fname)
             rep["functions"].append({"name": fname, "mode": f["mode"], "loops": f.get("loops", 0), "error": f.get("error", ""),
                                      "loops_without_invariant": f.get("loops_without_invariant") or [], "gen_ms": f.get("gen_ms")})
+            for d in f.get("drift") or []:
+                rep["drift"].append(fname + ": " + d)
             if f.get("error"):
                 rep["errors"].append(fname + ": " + f["error"])
                 continue
